@@ -6,6 +6,7 @@ from hypothesis import strategies as st
 
 from .. import plotgen, pools, refread, slicegen
 from ..harness import POISONS, poisoned_empty, qcall
+from ..harness import verbosity as harness_verbosity
 from . import common
 
 ID = "C16"
@@ -103,7 +104,7 @@ def check_case(case, ctx):
                     argv += ["-s"] if case["serial"] else []
                     common.run_main(cli.main, argv)
                 else:
-                    m = qcall(Mandoline, "src", fields=list(req), limit_level=limit, serial=case["serial"], verbose=0)
+                    m = qcall(Mandoline, "src", fields=list(req), limit_level=limit, serial=case["serial"], verbose=harness_verbosity(case))
                     qcall(m.slice, normal=cn, pos=parg, fformat="plotfile", outfile=f"out{i}")
         except Exception as e:
             return [f"mandoline raised {type(e).__name__}: {e} (normal={cn} pos={p!r} class {pcls} limit={limit})"]
@@ -117,7 +118,7 @@ def check_case(case, ctx):
         pools.set_schedule(None if case["serial"] else case["sched"])
         try:
             with poisoned_empty(POISONS[0]):
-                m = qcall(Mandoline, "src", fields=list(req), limit_level=limit, serial=case["serial"], verbose=0)
+                m = qcall(Mandoline, "src", fields=list(req), limit_level=limit, serial=case["serial"], verbose=harness_verbosity(case))
                 for name in ("h1", "h2", "h3"):
                     qcall(m.slice, normal=cn, pos=p, fformat="plotfile", outfile=name)
             first = tree_files("out0")
